@@ -19,6 +19,23 @@ INT_PARAMS = {"i", "j", "k", "nz", "nx", "ny", "nsweep", "max_step", "sgnvz", "s
 BOOL_PARAMS = {"grad", "honor_grid"}
 
 
+def split_types(txt):
+    out, depth, cur = [], 0, ""
+    for ch in txt:
+        if ch in "([":
+            depth += 1
+        elif ch in ")]":
+            depth -= 1
+        if ch == "," and depth == 0:
+            out.append(cur.strip())
+            cur = ""
+        else:
+            cur += ch
+    if cur.strip():
+        out.append(cur.strip())
+    return out
+
+
 def signature_table():
     """explicit signatures from the AST: every float parameter must be f8 (never narrowed / truncated), every index i4,
     arrays f8[...] with layout 'A' (':' only) so that non-contiguous inputs are accepted"""
@@ -30,18 +47,30 @@ def signature_table():
             for dec in fn.decorator_list:
                 if isinstance(dec, ast.Call) and dec.args and isinstance(dec.args[0], ast.Constant) and isinstance(dec.args[0].value, str):
                     sig = dec.args[0].value
-                    m = re.match(r"^(.*)\((.*)\)$", sig.strip())
+                    sg = sig.strip()
+                    # return type = everything up to the parenthesis that opens the argument list (the last top-level group)
+                    depth, start = 0, None
+                    for pos in range(len(sg) - 1, -1, -1):
+                        if sg[pos] == ")":
+                            depth += 1
+                        elif sg[pos] == "(":
+                            depth -= 1
+                            if depth == 0:
+                                start = pos
+                                break
+                    m = re.match(r"^(.*)$", sg[:start]) if start is not None else None
+                    args_txt = sg[start + 1:-1] if start is not None else ""
                     if not m:
                         bad.append((rel, fn.name, "unparsable signature"))
                         continue
-                    argt = [a.strip() for a in re.split(r",\s*(?![^\[\(]*[\]\)])", m.group(2))]
+                    argt = split_types(args_txt)
                     names = [a.arg for a in fn.args.args]
                     rows.append((rel, fn.name, sig))
                     if len(argt) != len(names):
                         bad.append((rel, fn.name, f"{len(argt)} types for {len(names)} parameters"))
                         continue
                     for nme, ty in zip(names, argt):
-                        if nme in FLOAT_PARAMS and ty != "f8":
+                        if nme in FLOAT_PARAMS and ty != "f8" and not (fn.name.endswith("_vectorized") and ty == "f8[:]"):
                             bad.append((rel, fn.name, f"float parameter {nme} declared {ty}"))
                         if nme in INT_PARAMS and ty != "i4":
                             bad.append((rel, fn.name, f"integer parameter {nme} declared {ty}"))
